@@ -53,6 +53,19 @@ def _v6_outer_confs():
 
 def build(params):
     confs = CONFIGS[params['config']]()
+    if params.get('start') == 'double':
+        # both peers initiated at the same time: every endpoint holds two IKE_SAs for the one connection (one as
+        # initiator, one as responder), each with one CHILD_SA
+        w = S.new_world(confs, ADDRS.get(params['config']))
+        w.step(('acquire', 'A', 0, 0))
+        w.step(('acquire', 'B', 0, 0))
+        w.deliver_all()
+        for ep in w.endpoints.values():
+            if [x.state for x in ep.controller.ike_sas] != [State.ESTABLISHED] * 2:
+                raise HarnessError('double start: %s holds %s' % (ep.name, [x.state.name for x in ep.controller.ike_sas]))
+        w.history = []
+        P.set_budget(w, **params['budget'])
+        return w
     w = S.established(confs, initiator=params.get('initiator', 'A'), addrs=ADDRS.get(params['config']))
     P.set_budget(w, **params['budget'])
     return w
@@ -88,11 +101,16 @@ def scenario_list(quick):
             out.append(dict(config=cfg, budget=dict(trig=3, fault=0)))
     out.append(dict(config='v6-outer', budget=dict(trig=2, fault=0) if quick else dict(trigA=2, trigB=2, fault=0)))
     out.append(dict(config='v6-outer', budget=dict(trig=1, fault=1) if quick else dict(trig=2, fault=1)))
+    # two IKE_SAs per endpoint for one connection (simultaneous initiation), INVALID_KE retries on the way
+    out.append(dict(config='ke-mismatch', start='double', kinds=('acquire', 'soft', 'rekey_ike'),
+                    budget=dict(trig=2, fault=0) if quick else dict(trig=3, fault=0)))
+    if not quick:
+        out.append(dict(config='match', start='double', budget=dict(trig=2, fault=1)))
     return out
 
 
 def label(params):
-    return '%s/%s' % (params['config'], ','.join('%s=%s' % kv for kv in sorted(params['budget'].items())))
+    return '%s%s/%s' % (params['config'], '+double' if params.get('start') == 'double' else '', ','.join('%s=%s' % kv for kv in sorted(params['budget'].items())))
 
 
 def explore(params, monitors, state_monitors=(), quick=True, max_states=None, jobs=0):
